@@ -177,6 +177,75 @@ pub async fn add_liars(c: &Cluster, rng: &mut impl Rng, invented: &mut Vec<Strin
     }
 }
 
+
+/// One lookup on a cluster, logged as the events the acceptor judges (Local, Lookup, Reply*). `extra` is merged into the
+/// Lookup event (fields the acceptor does not read, e.g. the model's answer for spec -> impl replays).
+pub async fn one_lookup(c: &Cluster, names: &mut Names, origin: &net::RealNode, key: [u8; 32], count: usize, invented: &[String],
+                        events: &mut Vec<Value>, extra: Option<Value>) {
+    let initial = origin.mgr.find_closest_nodes_local(&key, 10_000).await;
+    // peers whose query attempt cannot reach the hub: no connection yet and dialling them fails
+    // (nobody listens at the address a liar gave, or the peer is dead)
+    let neigh0 = c.hub.neighbours(&origin.id);
+    let mut unreachable: Vec<String> = invented.to_vec();
+    for s in &c.silent {
+        if !neigh0.contains(s) {
+            unreachable.push(s.clone());
+        }
+    }
+    let seq0 = c.hub.seq();
+    let res = tokio::time::timeout(Duration::from_secs(2 * 200), origin.mgr.find_closest_nodes(&key, count)).await;
+    net::settle().await;
+    let frames = c.hub.frames_since(seq0);
+    let tr = transcript(&frames, &origin.id);
+    let (hang, err, result): (bool, Option<String>, Vec<String>) = match res {
+        Err(_) => (true, None, vec![]),
+        Ok(Err(e)) => (false, Some(e.to_string()), vec![]),
+        Ok(Ok(v)) => (false, None, v.iter().map(|n| n.peer_id.clone()).collect()),
+    };
+    let initial_ids: Vec<usize> = initial.iter().map(|n| names.id(&n.peer_id)).collect();
+    let reqs: Vec<Value> = tr
+        .iter()
+        .map(|(to, op, outc, nodes, _)| json!({"to":names.id(to),"op":op,"out":outc,"nodes":nodes.iter().map(|x| names.id(x)).collect::<Vec<_>>()}))
+        .collect();
+    let result_ids: Vec<usize> = result.iter().map(|x| names.id(x)).collect();
+    let me = names.id(&origin.id);
+    // responsive honest population (for the full-mesh corollary)
+    let honest: Vec<usize> = c.reals.iter().filter(|r| !c.silent.contains(&r.id)).map(|r| names.id(&r.id)).collect();
+    let pure = c.fullmesh && c.silent.is_empty() && c.fakes.is_empty();
+    // replies of real nodes to this lookup (C02 reply rule)
+    let mut replies = Vec::new();
+    for f in &frames {
+        let Some(m) = &f.dht else { continue };
+        if !matches!(m.message_type, DhtMessageType::Response) || !c.reals.iter().any(|r| r.id == f.from) {
+            continue;
+        }
+        let nodes: Vec<usize> = match &m.result {
+            Some(DhtNetworkResult::NodesFound { nodes, .. }) => nodes.iter().map(|n| names.id(&n.peer_id)).collect(),
+            Some(DhtNetworkResult::GetNotFound { .. }) => vec![],
+            _ => continue,
+        };
+        let known: Vec<usize> = c.hub.neighbours(&f.from).iter().map(|x| names.id(x)).collect();
+        replies.push(json!({"x":names.id(&f.from),"r":names.id(&f.to),"known":known,"nodes":nodes}));
+    }
+    let rank = names.ranks(&key);
+    // what the origin is connected to (hub view): its local knowledge must be exactly these peers
+    let neigh_ids: Vec<usize> = neigh0.iter().map(|x| names.id(x)).collect();
+    let rank = if rank.len() < names.list.len() { names.ranks(&key) } else { rank };
+    events.push(json!({"ev":"Local","self":me,"neigh":neigh_ids,"initial":initial_ids,"rank":rank}));
+    let mut lk = json!({"ev":"Lookup","self":me,"k":count,"rank":rank,"initial":initial_ids,"reqs":reqs,"result":result_ids,
+                       "unreachable":unreachable.iter().map(|x| names.id(x)).collect::<Vec<_>>(),
+                       "hang":hang,"err":err.unwrap_or_default(),"pure":pure,"honest":honest,"nids":names.list.len()});
+    if let (Some(Value::Object(x)), Value::Object(o)) = (extra, &mut lk) {
+        for (k, v) in x {
+            o.insert(k, v);
+        }
+    }
+    events.push(lk);
+    for r in replies {
+        events.push(json!({"ev":"Reply","x":r["x"],"r":r["r"],"known":r["known"],"nodes":r["nodes"],"rank":rank,"cap":8}));
+    }
+            }
+
 pub fn drive(a: &Args) -> i32 {
     let out = a.str("out", "/dev/stdout");
     let segments = a.num("segments", 10);
@@ -242,62 +311,7 @@ pub fn drive(a: &Args) -> i32 {
                     rng.fill(&mut key);
                 }
                 let count = [1usize, 2, 3, 5, 8, 8, 20][rng.gen_range(0..7)];
-                let initial = origin.mgr.find_closest_nodes_local(&key, 10_000).await;
-                // peers whose query attempt cannot reach the hub: no connection yet and dialling them fails
-                // (nobody listens at the address a liar gave, or the peer is dead)
-                let neigh0 = c.hub.neighbours(&origin.id);
-                let mut unreachable: Vec<String> = invented.clone();
-                for s in &c.silent {
-                    if !neigh0.contains(s) {
-                        unreachable.push(s.clone());
-                    }
-                }
-                let seq0 = c.hub.seq();
-                let res = tokio::time::timeout(Duration::from_secs(2 * 200), origin.mgr.find_closest_nodes(&key, count)).await;
-                net::settle().await;
-                let frames = c.hub.frames_since(seq0);
-                let tr = transcript(&frames, &origin.id);
-                let (hang, err, result): (bool, Option<String>, Vec<String>) = match res {
-                    Err(_) => (true, None, vec![]),
-                    Ok(Err(e)) => (false, Some(e.to_string()), vec![]),
-                    Ok(Ok(v)) => (false, None, v.iter().map(|n| n.peer_id.clone()).collect()),
-                };
-                let initial_ids: Vec<usize> = initial.iter().map(|n| names.id(&n.peer_id)).collect();
-                let reqs: Vec<Value> = tr
-                    .iter()
-                    .map(|(to, op, outc, nodes, _)| json!({"to":names.id(to),"op":op,"out":outc,"nodes":nodes.iter().map(|x| names.id(x)).collect::<Vec<_>>()}))
-                    .collect();
-                let result_ids: Vec<usize> = result.iter().map(|x| names.id(x)).collect();
-                let me = names.id(&origin.id);
-                // responsive honest population (for the full-mesh corollary)
-                let honest: Vec<usize> = c.reals.iter().filter(|r| !c.silent.contains(&r.id)).map(|r| names.id(&r.id)).collect();
-                let pure = c.fullmesh && c.silent.is_empty() && c.fakes.is_empty();
-                // replies of real nodes to this lookup (C02 reply rule)
-                let mut replies = Vec::new();
-                for f in &frames {
-                    let Some(m) = &f.dht else { continue };
-                    if !matches!(m.message_type, DhtMessageType::Response) || !c.reals.iter().any(|r| r.id == f.from) {
-                        continue;
-                    }
-                    let nodes: Vec<usize> = match &m.result {
-                        Some(DhtNetworkResult::NodesFound { nodes, .. }) => nodes.iter().map(|n| names.id(&n.peer_id)).collect(),
-                        Some(DhtNetworkResult::GetNotFound { .. }) => vec![],
-                        _ => continue,
-                    };
-                    let known: Vec<usize> = c.hub.neighbours(&f.from).iter().map(|x| names.id(x)).collect();
-                    replies.push(json!({"x":names.id(&f.from),"r":names.id(&f.to),"known":known,"nodes":nodes}));
-                }
-                let rank = names.ranks(&key);
-                // what the origin is connected to (hub view): its local knowledge must be exactly these peers
-                let neigh_ids: Vec<usize> = neigh0.iter().map(|x| names.id(x)).collect();
-                let rank = if rank.len() < names.list.len() { names.ranks(&key) } else { rank };
-                events.push(json!({"ev":"Local","self":me,"neigh":neigh_ids,"initial":initial_ids,"rank":rank}));
-                events.push(json!({"ev":"Lookup","self":me,"k":count,"rank":rank,"initial":initial_ids,"reqs":reqs,"result":result_ids,
-                                   "unreachable":unreachable.iter().map(|x| names.id(x)).collect::<Vec<_>>(),
-                                   "hang":hang,"err":err.unwrap_or_default(),"pure":pure,"honest":honest,"nids":names.list.len()}));
-                for r in replies {
-                    events.push(json!({"ev":"Reply","x":r["x"],"r":r["r"],"known":r["known"],"nodes":r["nodes"],"rank":rank,"cap":8}));
-                }
+                one_lookup(&c, &mut names, origin, key, count, &invented, &mut events, None).await;
             }
             if let Some(ft) = frames_trace.as_mut() {
                 for e in frame_events(&c, &mut names) {
@@ -316,5 +330,123 @@ pub fn drive(a: &Args) -> i32 {
     }
     let n = t.finish();
     eprintln!("c01 drive: {n} events");
+    0
+}
+
+/// spec -> impl: every configuration TLC enumerated for Replay_Lookup.tla (graph, target, silent peers) is built with real
+/// managers whose DHT keys carry the model id in their leading bits; the real lookup is logged for Trace_Lookup.tla and the
+/// model's deterministic answer is attached for the implementation-level comparison.
+pub fn replay(a: &Args) -> i32 {
+    let inp = a.str("in", "");
+    let out = a.str("out", "/dev/stdout");
+    let bits = a.num("bits", 3) as u32;
+    let stride = a.num("stride", 1).max(1) as usize;
+    let text = match std::fs::read_to_string(&inp) {
+        Ok(t) => t,
+        Err(e) => {
+            eprintln!("c01 replay: {inp}: {e}");
+            return 2;
+        }
+    };
+    let mut rng = common::rng(77);
+    // pool of peer ids per leading-bits value of their DHT key
+    let classes = 1usize << bits;
+    let mut pool: Vec<Vec<String>> = vec![Vec::new(); classes];
+    while pool.iter().any(|p| p.len() < 6) {
+        let id = net::hex_id(&mut rng);
+        let k = saorsa_core::dht::derive_dht_key_from_peer_id(&id);
+        let c = (k[0] >> (8 - bits)) as usize;
+        if pool[c].len() < 6 {
+            pool[c].push(id);
+        }
+    }
+    let ints = |v: &Value| -> Vec<usize> { v.as_array().map(|x| x.iter().filter_map(|y| y.as_u64()).map(|y| y as usize).collect()).unwrap_or_default() };
+    let mut t = Trace::create(&out);
+    let mut n_cfg = 0usize;
+    for (li, line) in text.lines().enumerate() {
+        if line.trim().is_empty() || li % stride != 0 {
+            continue;
+        }
+        let cfg: Value = match serde_json::from_str(line) {
+            Ok(v) => v,
+            Err(e) => {
+                eprintln!("c01 replay: line {li}: {e}");
+                return 2;
+            }
+        };
+        let nodes = ints(&cfg["nodes"]);
+        let me = cfg["self"].as_u64().unwrap_or(0) as usize;
+        let k = cfg["k"].as_u64().unwrap_or(2) as usize;
+        let target = cfg["target"].as_u64().unwrap_or(0) as u8;
+        let silent = ints(&cfg["silent"]);
+        let adj: Vec<Vec<usize>> = cfg["adj"].as_array().map(|x| x.iter().map(&ints).collect()).unwrap_or_default();
+        // the origin first (names id 1), then the others in model order
+        let mut order: Vec<usize> = vec![me];
+        order.extend(nodes.iter().copied().filter(|x| *x != me));
+        let rt = net::paused_rt();
+        let hub_rng = common::rng(5000 + li as u64);
+        let delay = [0u64, 0, 5, 50][rng.gen_range(0..4)];
+        let mut events: Vec<Value> = Vec::new();
+        let r: Result<(), String> = rt.block_on(async {
+            let hub = net::Hub::new(hub_rng, delay);
+            let mut reals = Vec::new();
+            for (i, m) in order.iter().enumerate() {
+                let id = pool[*m][rng.gen_range(0..pool[*m].len())].clone();
+                reals.push(net::spawn_real(&hub, &id, &net::addr_for(i + 1), Duration::from_secs(2), 8).await?);
+            }
+            let pos = |m: usize| order.iter().position(|x| *x == m).unwrap_or(0);
+            let mut edges = adj.clone();
+            edges.shuffle(&mut rng);
+            for e in &edges {
+                if e.len() != 2 {
+                    continue;
+                }
+                let (d, l) = if rng.gen_bool(0.5) { (pos(e[0]), pos(e[1])) } else { (pos(e[1]), pos(e[0])) };
+                let addr = reals[l].addr.clone();
+                let _ = reals[d].mgr.connect_to_peer(&addr).await;
+                net::settle().await;
+            }
+            let full = adj.len() == nodes.len() * (nodes.len() - 1) / 2;
+            let silent_ids: Vec<String> = silent.iter().map(|m| reals[pos(*m)].id.clone()).collect();
+            let c = Cluster { hub, reals, fakes: vec![], topo: "model", fullmesh: full, silent: silent_ids };
+            c.apply_silence();
+            let mut names = Names::new();
+            for r in &c.reals {
+                names.id(&r.id);
+            }
+            events.push(json!({"ev":"Reset","topo":"model","n_real":c.reals.len(),"n_fake":0,
+                               "silent":c.silent.iter().map(|s| names.id(s)).collect::<Vec<_>>(),"delay":delay,"cfg":li}));
+            let mut key = [0u8; 32];
+            rng.fill(&mut key);
+            key[0] = (key[0] & (0xffu8 >> bits)) | (target << (8 - bits));
+            // the model's answer in the names of this segment (names id = position in `order` + 1)
+            let tr = |v: &Value| -> Vec<usize> { ints(v).iter().map(|m| pos(*m) + 1).collect() };
+            let extra = json!({"model":{"result":tr(&cfg["result"]),"queried":tr(&cfg["queried"]),"answered":tr(&cfg["answered"]),
+                                        "nreq":cfg["nreq"],"iter":cfg["iter"],"cfg":li}});
+            one_lookup(&c, &mut names, &c.reals[0], key, k, &[], &mut events, Some(extra)).await;
+            // the implementation-level comparison as an event of its own: returned list and answering peers, real vs model
+            if let Some(lk) = events.iter().rev().find(|e| e["ev"] == "Lookup").cloned() {
+                let mut ans: Vec<u64> = lk["reqs"].as_array().map(|r| r.iter().filter(|q| q["out"] == "answered").filter_map(|q| q["to"].as_u64()).collect()).unwrap_or_default();
+                ans.sort();
+                let mut mans: Vec<u64> = lk["model"]["answered"].as_array().map(|r| r.iter().filter_map(|q| q.as_u64()).collect()).unwrap_or_default();
+                mans.sort();
+                events.push(json!({"ev":"Model","cfg":li,"result":lk["result"],"mresult":lk["model"]["result"],"answered":ans,"manswered":mans,
+                                   "hang":lk["hang"],"err":lk["err"]}));
+            }
+            c.shutdown().await;
+            Ok(())
+        });
+        drop(rt);
+        if let Err(e) = r {
+            eprintln!("c01 replay: {e}");
+            return 2;
+        }
+        for e in events {
+            t.ev(e);
+        }
+        n_cfg += 1;
+    }
+    let n = t.finish();
+    eprintln!("c01 replay: {n_cfg} configurations, {n} events");
     0
 }
